@@ -211,6 +211,9 @@ def gen_arg(r, pt, tname: str):
     if tname == "account":
         if r.random() < 0.4:
             return {"k": "ref", "what": "account", "idx": r.randrange(len(CTX_ACCOUNTS))}
+        if r.random() < 0.35:
+            # the address given as a leaf expression (this application's own account, the caller, the zero address)
+            return {"k": "gexpr", "what": r.choice(["current_application_address", "current_application_address", "zero_address", "sender"])}
         return {"k": "bytes", "hex": bytes(r.randrange(256) for _ in range(32)).hex()}
     if tname == "application":
         if r.random() < 0.4:
@@ -366,6 +369,12 @@ class Built:
         elif k == "bytes":
             b = bytes.fromhex(arg["hex"])
             self.pyargs.append(pt.Bytes(b))
+            self.lean_args.append(f"(expr (b {hexs(b)}))")
+            self.values.append(("bytes", b))
+        elif k == "gexpr":
+            e, b = {"current_application_address": (pt.Global.current_application_address(), bytes([0xA0]) * 32),
+                    "zero_address": (pt.Global.zero_address(), ZERO), "sender": (pt.Txn.sender(), SENDER)}[arg["what"]]
+            self.pyargs.append(e)
             self.lean_args.append(f"(expr (b {hexs(b)}))")
             self.values.append(("bytes", b))
         elif k == "int":
